@@ -181,6 +181,35 @@ def run(c):
         pr = resp.get("probe" + tag)
         outcome(cl, tag, answered, npan, probe=bool(pr and pr["status"] == 200), tasks=tasks_ok, detail={"panics": pan[:2]})
     c.extra["rig_inputs"] = len(plans)
+    # 4. the key keeper is notified while latched (provision queries do that): the task must keep polling
+    from checks import c12
+    ksteps = [c12.plan("GET /secure-channel/status", 200, c12.status_doc(None)),
+              c12.plan("POST /secure-channel/key", 200, c12.key_doc(c12.G[0], c12.CAN["ok1"])),
+              c12.plan("POST /secure-channel/key/*", 200, ""),
+              {"op": "start_key_keeper", "interval_ms": 1}, {"op": "sleep", "ms": 400},
+              c12.plan("GET /secure-channel/status", 200, c12.status_doc(c12.G[0])), {"op": "sleep", "ms": 150},
+              {"op": "key_state", "tag": "latched"}, {"op": "mark", "tag": "begin:kknotify"}]
+    for _ in range(60):
+        ksteps += [{"op": "notify_key_keeper"}, {"op": "sleep", "ms": 4}]
+    ksteps += [{"op": "mark", "tag": "end:kknotify"}, {"op": "sleep", "ms": 300}, {"op": "mark", "tag": "after:kknotify"},
+               {"op": "sleep", "ms": 200}]
+    kev, kd, _ = rig.run_rig({"steps": ksteps, "drain_ms": 100}, "c13_kk", timeout=120)
+    latched = any(e["e"] == "KeyState" and e.get("guid") for e in kev)
+    if not latched:
+        raise util.ToolError("C13 key-keeper scenario: the key was not latched")
+    seen_after, in_win, kpan = 0, False, []
+    after = False
+    for e in kev:
+        if e["e"] == "Mark" and e["tag"] == "begin:kknotify":
+            in_win = True
+        elif e["e"] == "Mark" and e["tag"] == "after:kknotify":
+            after = True
+        elif e["e"] == "Panic":
+            kpan.append({"location": e["location"], "message": e["message"][:160]})
+        elif e["e"] == "HostRecv" and after and e["target"].startswith("/secure-channel/status"):
+            seen_after += 1
+    outcome("keyKeeperNotified", "kknotify", True, len(kpan), probe=True, tasks=seen_after > 0,
+            detail={"panics": kpan[:2], "status_polls_after_notifications": seen_after})
     c.traces_validated += 1
     # the verdict, per site, by TLC on the recorded outcomes
     remaining = rows
